@@ -326,7 +326,7 @@ def run_check(modname, tier, seed, only_part=None):
     if errors:
         ev['coverage']['harness_errors'] = errors[:10]
     os.makedirs(os.path.join(VERIF, 'evidence'), exist_ok=True)
-    if not only_part:
+    if not only_part and not os.environ.get('VERIF_SENS'):
         with open(os.path.join(VERIF, 'evidence', pid + '.json'), 'w') as f:
             json.dump(ev, f, indent=1, sort_keys=True, default=repr)
             f.write('\n')
